@@ -401,7 +401,10 @@ def gen_step(r):
         c = 'fp' if r.random() < 0.08 else 'mp'
         # (fp.quad(method='gauss-legendre') does not terminate on the unchanged tree -- a C24 matter, kept out of here)
         meth = r.choice([None, 'tanh-sinh', 'gauss-legendre']) if (g != 'gauss' and c == 'mp') else None
-        return {'k': 'quad', 'g': g, 'ab': ab, 'method': meth, 'p': pick_prec(r, 260), 'ctx': c}
+        p = pick_prec(r, 260)
+        if meth == 'gauss-legendre':
+            p = max(p, 24)      # below 16 bits GaussLegendre.calc_nodes never terminates (Newton tolerance 2^-(prec+8) at 1.5 prec bits)
+        return {'k': 'quad', 'g': g, 'ab': ab, 'method': meth, 'p': p, 'ctx': c}
     if x < 0.86:
         return {'k': 'memo', 'g': r.choice(list(MEMO_FUNCS)), 'x': r.choice(list(MEMO_KEYS)), 'p': pick_prec(r, 400)}
     return {'k': 'ode', 'name': r.choice(list(ODES)), 'p0': r.choice([40, 53, 80]), 'x': [r.randint(0, 24), 8], 'p': pick_prec(r, 160)}
@@ -425,6 +428,8 @@ def gen_history(r, probes):
             else:
                 cap = {'const': 3200 if q.get('c') in CRCONST else 500, 'quad': 260, 'memo': 400, 'ode': 160}[q['k']]
                 s['p'] = pick_prec(r, cap)
+                if s.get('method') == 'gauss-legendre':
+                    s['p'] = max(s['p'], 24)
         else:
             s = gen_step(r)
         if r.random() < 0.12 and s.get('ctx', 'mp') in ('mp', 'clone'):
@@ -884,6 +889,11 @@ def mat_episode(rec, r, eid, fresh_queue):
             if now_cached and not cached:
                 fill_prec = p
                 log = []
+            elif now_cached:
+                lp = getattr(A, '_LU_prec', None)
+                if isinstance(lp, int) and lp != fill_prec:
+                    fill_prec = lp              # a tree that records the precision re-factorised at the current one
+                    log = []
             elif not now_cached:
                 fill_prec = None
                 log = []
